@@ -250,6 +250,28 @@ func RunBinary(p *Plan, o ExecOpts) (*ExecOut, error) {
 		}
 	}
 
+	// 2c. command names and aliases: within a service every name (primary or alias) designates one command
+	aliasOf := map[string]map[string]string{"query": {}, "tx": {}} // name or alias -> primary command name
+	for kind, sd := range map[string]*autocliv1.ServiceCommandDescriptor{"query": opts.Query, "tx": opts.Tx} {
+		for _, rc := range sd.RpcCommandOptions {
+			if rc.Skip {
+				continue
+			}
+			primary := kebabCase(rc.RpcMethod)
+			if rc.Use != "" {
+				primary = strings.Fields(rc.Use)[0]
+			}
+			for _, nm := range append([]string{primary}, rc.Alias...) {
+				evaluations++
+				distinct["name/"+kind+"/"+nm] = true
+				if other, dup := aliasOf[kind][nm]; dup && other != primary {
+					bad("command-name-collision/"+kind+"/"+nm, "`%s fundraising %s` is declared for both %q and %q: one of the two RPCs cannot be reached under that name", kind, nm, other, primary)
+				}
+				aliasOf[kind][nm] = primary
+			}
+		}
+	}
+
 	// 3. the command tree of the binary, breadth first, --help on every node
 	var leaves []cmdNode
 	treeNodes := 0
@@ -276,6 +298,26 @@ func RunBinary(p *Plan, o ExecOpts) (*ExecOut, error) {
 			}
 		}
 	}
+	// every declared alias must resolve, in the real binary, to the command it is declared for
+	for kind, m := range aliasOf {
+		for nm, primary := range m {
+			if nm == primary {
+				continue
+			}
+			so, se, code := runCmd(60*time.Second, env, bin, append([]string{kind, "fundraising", nm, "--help"}, base...)...)
+			evaluations++
+			u := usageLine(so)
+			f := strings.Fields(u)
+			got := ""
+			if len(f) >= 4 {
+				got = f[3]
+			}
+			if code != 0 || got != primary {
+				bad("alias-resolves-elsewhere/"+kind+"/"+nm, "`%s fundraising %s` is declared as an alias of %q but the binary resolves it to %q (exit %d %s)", kind, nm, primary, got, code, firstLine(strings.TrimSpace(se)))
+			}
+		}
+	}
+
 	// every RPC of both services is reachable (bound command, or the generated default), except
 	// the documented exemptions
 	leafNames := map[string]bool{}
